@@ -16,6 +16,7 @@ import (
 type PropSpec struct {
 	Level       string                       `json:"level"` // proof | other
 	Funcs       []string                     `json:"funcs"`
+	Deep        []string                     `json:"deep"` // the functions the property is stated on: thorough treatment in the thorough tier (the rest of the cone is decided as in the quick tier); empty: all
 	Clauses     []string                     `json:"clauses"` // regexps over obligation names that count for this property (default: all)
 	Exclude     []string                     `json:"exclude"`
 	Explanation string                       `json:"explanation"`
@@ -108,6 +109,15 @@ func (x *Exec) runProperty(prop, mapFile, tier, evDir, dump, known, replayDir st
 	}
 	tGen := time.Since(t0)
 	opts := defaultOpts(tier)
+	if dre := compileAll(ps.Deep); len(dre) > 0 {
+		opts.Deep = func(o *Obligation) bool {
+			f := o.Func
+			if i := strings.Index(f, "~"); i >= 0 {
+				f = f[:i]
+			}
+			return matchAny(dre, f)
+		}
+	}
 	rs := x.solveAll(obls, opts)
 	sums := summarize(rs)
 
